@@ -307,6 +307,11 @@ class ValGen(object):
         hi = int(hi)
 
         if extensible and rng.random() < 0.15:
+            # Outside the root of an extensible constraint: above it, or
+            # (just as legal) below it.
+            if lo > 0 and rng.random() < 0.5:
+                return rng.choice([0, lo - 1]), 0
+
             return hi + rng.choice([1, 2, 10]), lo
 
         if hi - lo > 400 and not (self.big and rng.random() < 0.3):
